@@ -167,6 +167,7 @@ def run(cx, rep):
                         # top-level arms of the conversion: builder.tuple / mapping_definition / map / set
                         n_regions += check_region(rep, F, f, "arm RuntypeKind::%s" % m2.group(1), KIND_FAMILY[m2.group(1)], a["body"], a["line"])
     rep.floor("C05.2", "family-selected regions with family mentions", n_regions, 8)
+    mixed_family_arm_rule(cx, rep, "C05.2")
 
     # ---------------------------------------------------------------- C05.3
     rep.rule("C05.3", "memo typestate of the emptiness entry points: lookup, Undefined => IsEmpty, insert before recursion, same key updated")
@@ -347,6 +348,8 @@ def run(cx, rep):
     # ---------------------------------------------------------------- C05.9
     rep.rule("C05.10", "the intersection of two object atoms applies an index signature to the keys only the other operand declares")
     mapping_intersection_rule(cx, rep, "C05.10")
+    rep.rule("C05.11", "an accumulated list prefix is padded with its own rest element")
+    own_rest_padding_rule(cx, rep, "C05.11")
     rep.rule("C05.9", "`inhabited` is answered only where no negative is left or where the remaining negatives answered it")
     n69 = every_negative_rule(F, rep, "C05.9", engine)
     rep.floor("C05.9", "returns of the base answer outside the base case", n69, 2)
@@ -757,7 +760,15 @@ def mapping_intersection_rule(cx, rep, rid):
         return
     g = fns[0]
     f = F.fns[g]
-    loops = [x for x in hwalk(F.hir[g]["body"]) if x["k"] == "Loop" and x.get("src") == "ForLoop"]
+    # the per-key loop may live in the function itself or in a private helper it delegates to; an iterator chain
+    # (`names.map(|name| ..)`) counts as a loop
+    from facts import walk_inlined
+    loops = []
+    for x, _o in walk_inlined(F, g, depth=2, private_only=True):
+        if x["k"] == "Loop" and x.get("src") == "ForLoop":
+            loops.append(x)
+        elif x["k"] == "Closure" and any(y["k"] == "MethodCall" and y["method"] == "intersect" for y in hwalk(x)):
+            loops.append(x)
     n = 0
     for lp in loops:
         # the loop over the key names: its body intersects the two member types
@@ -782,3 +793,83 @@ def mapping_intersection_rule(cx, rep, rid):
                "%s intersects two object atoms key by key and never looks at `indexed_properties` while doing so: a key declared by one operand only is not intersected with the other operand's index signature, so `{name: string | null} & Record<string, string>` keeps `name: string | null` - `X extends X` is then decided `no` for it and `{name: number} & Record<string, string>` is not recognised as empty" % g,
                "%s:%s" % (f.file, lp.get("line")), sample={"fn": g})
     rep.floor(rid, "per-key loops of the mapping intersection", n, 1)
+
+
+def own_rest_padding_rule(cx, rep, rid):
+    """A list type is a prefix plus a rest element; positions beyond the prefix belong to the rest element OF THAT
+    TYPE.  When the accumulated intersection lists fewer positions than the next member, its prefix is padded - with
+    the accumulated rest element, and it is the accumulated rest element that must not be `never`.  Padding with the
+    NEXT member's rest element (`lt.items`) makes `string[] & [string, string]` empty or not depending on which of the
+    two comes first (repaired by 258f690).  Decided: in the subtyping engine, a `push` that pads a local vector of
+    types inside `if <vec>.len() < ..` pushes a value that comes from a LOCAL (the accumulator), not from a field of a
+    list atom, and an `is_never` test in the same `if` is applied to a local as well."""
+    F = cx.rs
+    from facts import walk as hwalk
+    n = 0
+    for g, t in sorted(F.hir.items()):
+        f = F.fns.get(g)
+        if f is None or "/src/subtyping/" not in (f.file or ""):
+            continue
+        for i in hwalk(t["body"]):
+            if i["k"] != "If":
+                continue
+            c = i["cond"]
+            if not (c["k"] == "Binary" and c.get("op") == "Lt" and c["l"]["k"] == "MethodCall" and c["l"]["method"] == "len"
+                    and c["l"]["recv"]["k"] == "Path" and c["l"]["recv"].get("res") == "local" and "Vec<" in (c["l"]["recv"].get("ty") or "")):
+                continue
+            vec = c["l"]["recv"]["lid"]
+            pushes = [x for x in hwalk(i["then"]) if x["k"] == "MethodCall" and x["method"] in ("push", "resize", "extend", "resize_with") and x["recv"]["k"] == "Path" and x["recv"].get("lid") == vec]
+            if not pushes:
+                continue
+
+            def base(e):
+                while e["k"] in ("AddrOf", "Unary") or (e["k"] == "MethodCall" and e["method"] in ("clone", "as_ref", "borrow")):
+                    e = e["recv"] if e["k"] == "MethodCall" else e["e"]
+                return e
+            for x in pushes:
+                n += 1
+                b = base(x["args"][-1])          # push(v) / resize(n, v)
+                own = b["k"] == "Path" and b.get("res") == "local"
+                rep.ob(rid, "%s/pad-with-own-rest" % g.rsplit("::", 1)[-1], own,
+                       "%s pads the accumulated prefix with a value that is not its own accumulated rest element (a field of another list atom): positions the accumulated type does not list belong to ITS rest, so the result of `string[] & [string, string]` depends on member order" % g,
+                       "%s:%s" % (f.file, x["line"]), sample={"fn": g})
+            for x in hwalk(i["then"]):
+                if x["k"] == "MethodCall" and x["method"] == "is_never":
+                    b = base(x["recv"])
+                    rep.ob(rid, "%s/never-test-on-own-rest" % g.rsplit("::", 1)[-1], b["k"] == "Path" and b.get("res") == "local",
+                           "%s decides `empty` from the rest element of the NEXT member while padding the accumulated prefix: it is the accumulated rest element that fills those positions" % g,
+                           "%s:%s" % (f.file, x["line"]))
+    rep.floor(rid, "paddings of an accumulated prefix", n, 1)
+
+
+def mixed_family_arm_rule(cx, rep, rid):
+    """The index inside `Atom::List(i)`, `Atom::Set(i)`, `Atom::Mapping(i)`, `Atom::Map(i)` is a position in THAT
+    family's table; the four tables are unrelated.  An or-pattern that binds the index of two families to one name
+    (`Atom::List(a) | Atom::Set(a) => ctx.get_list_atomic(*a)`) reads the index of one family in the table of the
+    other: a Set is then materialised from whatever array happens to sit at the same position (or the lookup
+    panics).  Decided for the subtyping engine: an arm whose pattern names atom variants of more than one family and
+    binds their payload does not touch a family-specific table / constructor at all."""
+    F = cx.rs
+    n = 0
+    for gid in sorted(F.hir):
+        f = F.fns.get(gid)
+        if f is None or not (f.file or "").startswith("packages/beff-core/src/subtyping"):
+            continue
+        for m in walk(F.hir[gid]["body"]):
+            if m["k"] != "Match":
+                continue
+            for a in m["arms"]:
+                fams = {}
+                for p in walk(a["pat"]):
+                    mm = VARIANT_RE.search(p.get("def") or "")
+                    # (only the atoms carry a table index; ProperSubtype::Mapping(bdd) | ::Map(bdd) bind a diagram)
+                    if mm and "::Atom::" in (p.get("def") or "") and p["k"] in ("P.TupleStruct", "P.Struct") and any(q["k"] == "P.Binding" for q in walk(p)):
+                        fams[mm.group(1).lower()] = p
+                if len(fams) < 2:
+                    continue
+                n += 1
+                ms = family_mentions(a["body"])
+                rep.ob(rid, "%s/mixed-arm/%s" % (gid.rsplit("::", 1)[-1], "+".join(sorted(fams))), not ms,
+                       "%s binds the table index of the atom families %s to one name and then uses %s: the index of one family is read in another family's table (a Set is materialised from the array that happens to have the same index)" % (
+                           gid, sorted(fams), ms[0][1] if ms else ""), "%s:%s" % (f.file, a["line"]), sample={"fn": gid, "families": sorted(fams)})
+    rep.ob(rid, "mixed-arms-scanned", True, sample={"arms_binding_two_families": n})
